@@ -9,6 +9,7 @@ def faithful_cases(tier):
         out += [p for p in shapes.pairs(tier) if p["ff"]]
     else:
         out += [p for p in shapes.pairs(tier) if p["ff"]][:60]
+    out += [p for p in shapes.twins(tier) if p["ff"]]
     seen = set()
     res = []
     for p in out:
@@ -22,6 +23,7 @@ def enforced_cases(tier):
     out = [p for p in shapes.space_depth2(tier) if p["enf"]]
     if tier != "quick":
         out += [p for p in shapes.space_depth3(tier) if p["enf"]]
+    out += [p for p in shapes.twins(tier) if p["enf"]]
     seen = set()
     res = []
     for p in out:
